@@ -249,8 +249,11 @@ def r5_single_evaluator(ctx: Ctx) -> None:
             "a816/parse/codegen.py:generate_assign": "name := expr", "a816/parse/codegen.py:generate_for": "loop bounds",
             "a816/parse/codegen.py:generate_if": "conditions", "a816/parse/codegen.py:generate_macro_application": "macro arguments",
             "a816/parse/nodes.py:IncludeIpsNode.__init__": ".include_ips delta"}
+    floor_per_site = {"a816/parse/codegen.py:generate_for": 2}
     for site, what in need.items():
-        ctx.check(site in sites, f"evaluates-through-eval_expression:{site.split(':')[1]}", f"{what} use the common evaluator")
+        n = sites.count(site)
+        ctx.check(n >= floor_per_site.get(site, 1), f"evaluates-through-eval_expression:{site.split(':')[1]}",
+                  f"{what} use the common evaluator ({n} call(s), {floor_per_site.get(site, 1)} expected)")
     ctx.floor("evaluation_sites", 8)
     # operators each lexer can emit
     prec = module_const(ctx.repo, EXPR, "OPERATOR_PRECEDENCE")
